@@ -2073,6 +2073,50 @@ def C06_cond_sites_family():
     return True, f"{n} evaluations of programs with several conditionals agree with JAX ({loud} exports raised loudly)"
 
 
+def D46_jnp_mean_dtype_not_ignored():
+    """C19: jnp.mean(x, dtype=float16) is rejected or exported with the requested result type"""
+    jax, jnp = _jax()
+    import jax2onnx
+    x = np.arange(6, dtype=np.float32).reshape(2, 3)
+    for what, fn in (("jnp.mean(a, axis=1, dtype=float16)", lambda a: jnp.mean(a, axis=1, dtype=jnp.float16)), ("jnp.mean(a, dtype=float16)", lambda a: jnp.mean(a, dtype=jnp.float16))):
+        want = np.asarray(fn(jnp.asarray(x)))
+        try:
+            m = jax2onnx.to_onnx(fn, [(2, 3)], model_name="d46")
+        except Exception:
+            continue
+        got = _run(m, [x])[0][0]
+        if got.dtype != want.dtype:
+            return False, f"{what}: the exported model returns {got.dtype}, JAX {want.dtype} (the dtype argument is ignored)"
+    return True, "dtype honoured or rejected"
+
+
+def D47_nnx_attention_positional_bias():
+    """C19: the fourth positional parameter of nnx.dot_product_attention is `bias` (then `mask`), also while tracing"""
+    jax, jnp = _jax()
+    from flax import nnx
+    import jax2onnx
+    rng = np.random.default_rng(0)
+    q, k, v = (rng.standard_normal((1, 4, 2, 8)).astype(np.float32) for _ in range(3))
+    bias = rng.standard_normal((1, 2, 4, 4)).astype(np.float32)
+    mask = rng.standard_normal((1, 2, 4, 4)) > 0.0
+    mask[..., 0] = True
+    for what, fn, feeds in (("dot_product_attention(q, k, v, bias)", lambda a, b, c, d: nnx.dot_product_attention(a, b, c, d), [q, k, v, bias]),
+                            ("dot_product_attention(q, k, v, bias, mask)", lambda a, b, c, d, e: nnx.dot_product_attention(a, b, c, d, e), [q, k, v, bias, mask]),
+                            ("dot_product_attention(q, k, v, mask=mask, bias=bias)", lambda a, b, c, d, e: nnx.dot_product_attention(a, b, c, mask=e, bias=d), [q, k, v, bias, mask])):
+        want = np.asarray(fn(*[jnp.asarray(t) for t in feeds]))
+        try:
+            m = jax2onnx.to_onnx(fn, [jax.ShapeDtypeStruct(t.shape, t.dtype) for t in feeds], model_name="d47")
+        except Exception:
+            continue
+        try:
+            got = _run(m, feeds)[0][0]
+        except Exception as e:
+            return False, f"{what}: exported without an error, ONNX Runtime fails: {str(e)[-160:]}"
+        if got.shape != want.shape or not np.allclose(got, want, rtol=1e-4, atol=1e-5):
+            return False, f"{what}: exported model differs from eager flax by {float(np.max(np.abs(got - want))):.3g} (the positional argument is bound to another parameter)"
+    return True, "positional bias / mask bound as in flax"
+
+
 def _scope_walk(model):
     """(ok, why): every value is defined before it is read, in its own graph or an enclosing one; function bodies read only their inputs"""
     def walk(g, outer, where):
@@ -2211,6 +2255,7 @@ ALL = {
     "C16_returned_value_arity_family": C16_returned_value_arity_family,
     "D44": D44_lax_round_ties_away_from_zero, "D45": D45_dynamic_slice_clamps_the_start,
     "C06_cond_sites_family": C06_cond_sites_family,
+    "D46": D46_jnp_mean_dtype_not_ignored, "D47": D47_nnx_attention_positional_bias,
     "C13_retrace_family": C13_retrace_family, "D36": D36_jit_helper_keeps_working_after_conversion,
     "C13_rebinding_between_conversions": C13_rebinding_between_conversions,
     "D1": D1_max_nonscalar_side_operand,
